@@ -45,6 +45,13 @@ func actionsHash(as []Action) string {
 
 func finish(res *RunResult, verbose bool, sample bool) {
 	res.ActionsHash = actionsHash(res.Actions)
+	if res.Config.Startup != nil {
+		// a start-up simulation has no action list: its case is its plan
+		b, _ := json.Marshal(res.Config.Startup)
+		h := sha256.Sum256(b)
+		res.ActionsHash = fmt.Sprintf("%x", h[:8])
+		res.States = []string{res.ActionsHash}
+	}
 	if sample {
 		sm := &Sample{Seed: res.Config.Seed}
 		cb, _ := json.Marshal(res.Config)
@@ -77,7 +84,7 @@ func TestSim(t *testing.T) {
 		warm := *flagWarm
 		if warm < 0 {
 			warm = 0
-			if raceBuild {
+			if raceBuild && profile != "C20" {
 				warm = 1
 			}
 		}
